@@ -44,13 +44,14 @@ func (l *DNSNameWildcardLeftofPublicSuffix) CheckApplies(c *x509.Certificate) bo
 }
 
 func (l *DNSNameWildcardLeftofPublicSuffix) Execute(c *x509.Certificate) *lint.LintResult {
+	// All names are examined before the verdict is chosen, so that the result does not
+	// depend on where a name that cannot be parsed sits among the others.
+	unparseable := false
 	if c.Subject.CommonName != "" && !util.CommonNameIsIP(c) {
 		domainInfo := c.GetParsedSubjectCommonName(false)
 		if domainInfo.ParseError != nil {
-			return &lint.LintResult{Status: lint.NA}
-		}
-
-		if domainInfo.ParsedDomain.SLD == "*" {
+			unparseable = true
+		} else if domainInfo.ParsedDomain.SLD == "*" {
 			return &lint.LintResult{Status: lint.Notice}
 		}
 	}
@@ -58,12 +59,16 @@ func (l *DNSNameWildcardLeftofPublicSuffix) Execute(c *x509.Certificate) *lint.L
 	parsedSANDNSNames := c.GetParsedDNSNames(false)
 	for i := range c.GetParsedDNSNames(false) {
 		if parsedSANDNSNames[i].ParseError != nil {
-			return &lint.LintResult{Status: lint.NA}
+			unparseable = true
+			continue
 		}
 
 		if parsedSANDNSNames[i].ParsedDomain.SLD == "*" {
 			return &lint.LintResult{Status: lint.Notice}
 		}
+	}
+	if unparseable {
+		return &lint.LintResult{Status: lint.NA}
 	}
 	return &lint.LintResult{Status: lint.Pass}
 }
